@@ -238,6 +238,24 @@ def _run_system(args):
             tid += 1
             ev.append({"tid": tid, "ev": "Pair", "kind": "sparse", "cls": cname,
                        "diff_lg": lg(ofro(xn - xs) / nx), "bound_lg": lg(1e-12)})
+        # the same values stored in other plane dtypes (float32, and int64 when the entries are integers): the solution
+        # is a function of the values, not of the storage dtype of the sparse planes
+        if tol == min(tols) and xn is not None and np.all(np.isfinite(xn)):
+            u_ = lib().utils
+            S_2 = lib().solver
+            dts = ([np.float32] if np.array_equal(A.astype(np.float32).astype(np.float64), A) else []) + \
+                  ([np.int64] if np.array_equal(np.rint(A), A) and np.max(np.abs(A)) < 2 ** 40 else [])
+            for dt in dts:
+                spd = u_.SparseQuaternionMatrix(*[sparse.csr_matrix(A[..., c_].astype(dt)) for c_ in range(4)], A.shape[:2])
+                try:
+                    xd, _ = S_2.QGMRESSolver(tol=tol).solve(spd, q_from_float(b))
+                    xd = q_to_float(np.asarray(xd)).reshape(xn.shape)
+                    dd = ofro(xd - xn) / nx if np.all(np.isfinite(xd)) else float("inf")
+                except Exception:
+                    dd = float("inf")
+                tid += 1
+                ev.append({"tid": tid, "ev": "Pair", "kind": "sparse", "cls": cname, "plane_dtype": np.dtype(dt).name,
+                           "diff_lg": lg(dd), "bound_lg": max(lg(tol), FLOOR) + lg(cond) + 256})
         for c in scales:
             try:
                 xc, _ = _solve(A * c, b * c, tol, None, "none", True)
